@@ -26,7 +26,7 @@ pub fn mk(dims: &[usize], data: &[f32]) -> Tensor {
 }
 
 fn values(rng: &mut Rng, n: usize, fam: usize) -> Vec<f32> {
-    const SPECIAL: [f32; 12] = [0.0, -0.0, 1e-45, -1e-45, 1.1754942e-38, f32::MAX, f32::MIN, 1.0, -1.0, 2.5e38, -2.5e38, 16777216.0];
+    const SPECIAL: [f32; 15] = [0.0, -0.0, 1e-45, -1e-45, 1.1754942e-38, f32::MAX, f32::MIN, 1.0, -1.0, 2.5e38, -2.5e38, 16777216.0, f32::INFINITY, f32::NEG_INFINITY, f32::NAN];
     (0..n)
         .map(|_| match fam {
             0 => rng.f32_in(-10.0, 10.0),
@@ -523,7 +523,7 @@ impl Monitor for C15 {
         vec![("binary", 8000 * k), ("mismatch", 4000 * k), ("scalar", 3000 * k), ("mean", 3000 * k), ("nested", 1500 * k), ("linalg", 2000 * k)]
     }
     fn rule(&self) -> &'static str {
-        "binary: (op in add/sub/mul/hadamard) x (rank 1..4) x (content family: random, special values incl. +-0, denormals, +-MAX, overflowing products, bit-pattern denormals, log-scaled, a dyadic palette {-2,-1,-0.5,0,0.5,1,2}, sorted ramps) on random shapes with extents 1..5: result bit-equal to the IEEE f32 operation performed by the harness (any association for the scaled Hadamard product), bit-identical to the same operation on the numbers laid out as a vector (rank-generic), shape unchanged. mismatch: same ops + mean on operand pairs of different extent or rank (incl. equal element count in another rank): must panic and leave the left operand untouched. scalar: division by scalars incl. 0, tiny, huge + clamp. mean: k = 1..6 others. nested: Nested / NestedOptional add (absent members at equal and at different positions in the two operands), Nested scalar division, nested length mismatch and member-shape mismatch. linalg: outer product (bit-exact), matrix-vector product (f64 with dot-product bound), transpose, hadamard3d. Distinct = distinct (op, rank, shape, family) descriptors."
+        "binary: (op in add/sub/mul/hadamard) x (rank 1..4) x (content family: random, special values incl. +-0, denormals, +-MAX, +-inf, NaN, overflowing products, bit-pattern denormals, log-scaled, a dyadic palette {-2,-1,-0.5,0,0.5,1,2}, sorted ramps) on random shapes with extents 1..5: result bit-equal to the IEEE f32 operation performed by the harness (any association for the scaled Hadamard product), bit-identical to the same operation on the numbers laid out as a vector (rank-generic), shape unchanged. mismatch: same ops + mean on operand pairs of different extent or rank (incl. equal element count in another rank): must panic and leave the left operand untouched. scalar: division by scalars incl. 0, tiny, huge + clamp. mean: k = 1..6 others. nested: Nested / NestedOptional add (absent members at equal and at different positions in the two operands), Nested scalar division, nested length mismatch and member-shape mismatch. linalg: outer product (bit-exact), matrix-vector product (f64 with dot-product bound), transpose, hadamard3d. Distinct = distinct (op, rank, shape, family) descriptors."
     }
     fn assumptions(&self) -> Vec<&'static str> {
         vec!["hadamard3d is documented as not validating lengths, so it is only driven with equal shapes", "NaN results (inf-inf, 0*inf) are matched as NaN"]
